@@ -1621,6 +1621,10 @@ val chk_C18_values_fns : fn_decl list -> block list -> bool
 
 val chk_C18_values : program -> output -> bool
 
+val block_summary : block -> n list
+
+val summary : run_result -> n list
+
 type json =
 | JNull
 | JBool of bool
